@@ -316,7 +316,7 @@ func (g *SchemaGen) chance(p float64) bool {
 var goodIdents = []string{"A", "B", "C", "User", "Doc", "T0", "T1", "_x", "a1", "Group", "entity", "type", "action", "namespace", "enum", "tags", "appliesTo", "principal", "context", "Set1", "Entity1", "is_", "then1"}
 var primLikeIdents = []string{"Long", "String", "Bool", "Boolean", "ipaddr", "decimal", "datetime", "duration"}
 var badIdents = []string{"", "a b", "in", "if", "true", "has", "é", "1a", "a-b", "\"q\"", "Set", "like", "__cedar", "Entity", "Record", "Extension"}
-var attrNames = []string{"a", "b", "name", "in", "if", "a b", "", "é", "日本", "\"", "\\", "x\ny", "\x00", "__cedar", "is", "entity", "_", "A::B", "\u007f", "\u2028", "tab\t", "1a", "a?"}
+var attrNamesC1617 = []string{"a", "b", "name", "in", "if", "a b", "", "é", "日本", "\"", "\\", "x\ny", "\x00", "__cedar", "is", "entity", "_", "A::B", "\u007f", "\u2028", "tab\t", "1a", "a?"}
 var actionNames = []string{"view", "edit", "a b", "", "in", "é", "\"q\"", "act::x", "__cedar", "if", "delete", "日本", "x\\y", "\r"}
 var annKeys = []string{"doc", "a", "in", "if", "_k", "K9", "entity", "__cedar"}
 var annVals = []string{"", "v", "a b", "é\n", "\"", "\\", "\x00", "日本"}
@@ -408,7 +408,7 @@ func (g *SchemaGen) record(sc *genScope, depth int) sast.RecordType {
 	r := sast.RecordType{}
 	n := g.pick(4)
 	for i := 0; i < n; i++ {
-		r[types.String(attrNames[g.pick(len(attrNames))])] = sast.Attribute{Type: g.typ(sc, depth), Optional: g.chance(0.3), Annotations: g.anns()}
+		r[types.String(attrNamesC1617[g.pick(len(attrNamesC1617))])] = sast.Attribute{Type: g.typ(sc, depth), Optional: g.chance(0.3), Annotations: g.anns()}
 	}
 	return r
 }
@@ -519,7 +519,7 @@ func (g *SchemaGen) Schema() *sast.Schema {
 				g.feat("empty-enum")
 			}
 			for i := 0; i < nv; i++ {
-				en.Values = append(en.Values, types.String(attrNames[g.pick(len(attrNames))]))
+				en.Values = append(en.Values, types.String(attrNamesC1617[g.pick(len(attrNamesC1617))]))
 			}
 			if enums == nil {
 				enums = sast.Enums{}
